@@ -147,6 +147,10 @@ def render_str(s, model=None):
             if not z3.is_bv_value(t):
                 return None
             out.append(chr(t.as_long()))
+        elif getattr(c, 'kind', None) == 'fmt_int' and model is not None and c.args and isinstance(c.args[0], Int):
+            # the decimal rendering of an integer is determined by the model
+            t = z3.simplify(model.eval(c.args[0].t, model_completion=True))
+            out.append(str(t.as_signed_long() if c.args[0].signed else t.as_long()) if z3.is_bv_value(t) else '�<fmt_int>')
         else:
             out.append('�<%s>' % c.kind)
     return ''.join(out)
